@@ -390,11 +390,11 @@ func runC15(c *fw.Ctx, cs fw.Case) {
 
 func init() {
 	fw.Register(&fw.Monitor{
-		ID:        "C15",
-		Level:     "exploration",
-		Race:      true,
-		Technique: "runtime trace checking of the PV stream against direct fixed-depth searches; gate evaluator that parks the search goroutine inside depth 1 while Halt is called; hook-point delays between store/publish of an iteration; enumerated time-control parameters; all under the race detector",
-		Rule: "streams: four engine recipes x generated roots x depth limits (with and without a shared table): depths strictly increasing, each reported iteration equals a direct search (score; PV and nodes without table), end exactly at the limit or at the first forced mate within depth, Halt after the end returns the last iteration; halts: unlimited analysis halted after k reported iterations with random delays injected at iter.done/iter.stored/iter.sent/iter.halt.*: Halt returns a completed iteration >= every one reported before, never ended by itself; gate: search parked inside the j-th evaluation of depth 1 while Halt is called: Halt must not return before the gate opens (30 ms grace; correct code cannot return, so no false alarm) and then returns completed depth >= 1; limits: all combinations of 13 clock values x 21 moves-to-go values x 2 colours plus random ones: 0 <= soft <= hard <= remaining, no panic; clock: 0-2 ms clocks still complete depth 1; engine default depth; distinct = distinct (recipe, history, parameters)",
+		ID:          "C15",
+		Level:       "exploration",
+		Race:        true,
+		Technique:   "runtime trace checking of the PV stream against direct fixed-depth searches; gate evaluator that parks the search goroutine inside depth 1 while Halt is called; hook-point delays between store/publish of an iteration; enumerated time-control parameters; all under the race detector",
+		Rule:        "streams: four engine recipes x generated roots x depth limits (with and without a shared table): depths strictly increasing, each reported iteration equals a direct search (score; PV and nodes without table), end exactly at the limit or at the first forced mate within depth, Halt after the end returns the last iteration; halts: unlimited analysis halted after k reported iterations with random delays injected at iter.done/iter.stored/iter.sent/iter.halt.*: Halt returns a completed iteration >= every one reported before, never ended by itself; gate: search parked inside the j-th evaluation of depth 1 while Halt is called: Halt must not return before the gate opens (30 ms grace; correct code cannot return, so no false alarm) and then returns completed depth >= 1; limits: all combinations of 13 clock values x 21 moves-to-go values x 2 colours plus random ones: 0 <= soft <= hard <= remaining, no panic; clock: 0-2 ms clocks still complete depth 1; engine default depth; distinct = distinct (recipe, history, parameters)",
 		Assumptions: []string{"gaps in the PV stream are legal: the one-slot channel deliberately drops an unread iteration", "clocks are non-negative (the quantifier of the property)"},
 		Timeout:     minutes(15, 120),
 		Cases: func(tier string, seed int64) []fw.Case {
